@@ -15,10 +15,20 @@
     driver interns the strings to numbers, [0] = "no cron and no every" (or an
     unparsable one), which [NewSchedulableTask]/[NewSchedule] rejects.
 
-    [fx] is a switch used only by the theorems: [fx = false] is the code as it is
-    ([TaskCreated] schedules unconditionally), [fx = true] is the proposed one-line
-    repair ([TaskCreated] schedules only a task whose status is active).  The
-    correspondence judge uses [fx = false]. *)
+    Status domain: [TaskCreate.Validate] admits only "", "active", "inactive" and the
+    store replaces "" by "active" before the coordinator sees the task;
+    [TaskUpdate.Validate] admits only "active"/"inactive".  So the status of a stored
+    task is two-valued and is modelled as [t_active : bool]; on this domain the test of
+    the code, [task.Status == "inactive"], is [negb t_active].  (A coordinator handed a
+    task with any other status string would schedule it; that cannot come through the
+    coordinating task service and is outside the model.)
+
+    [fx] selects the version of [Coordinator.TaskCreated]: [fx = true] is the code as it
+    is now (since /repo commit da7c7e4fac "fix: do not schedule a task that is created
+    with status inactive": an inactive task is not scheduled on create), [fx = false]
+    the code before that commit (schedules unconditionally), kept only to record the
+    counterexample.  The correspondence judge and the property theorems use
+    [fx = true]. *)
 From Verif Require Import Base.Prelude.
 
 Record sched := { sc_spec : N; sc_off : Z }.
@@ -70,7 +80,8 @@ Fixpoint upd {A} (k : N) (v : A) (l : list (N * A)) : list (N * A) :=
 Definition valid (s : sched) : bool := negb (N.eqb (sc_spec s) 0).
 
 (** [Coordinator.TaskCreated]: NewSchedulableTask fails on an invalid schedule
-    (returns [None] = error), otherwise Schedule — unconditionally in the code. *)
+    (returns [None] = error); then [if task.Status == "inactive" { return nil }];
+    otherwise Schedule. *)
 Definition task_created (fx : bool) (id : N) (t : task) (sch : sset) : option sset :=
   if negb (valid (t_sched t)) then None
   else if fx && negb (t_active t) then Some sch
@@ -167,7 +178,7 @@ Definition obs_eqb (a b : sset * store) : bool :=
   sset_eqb (fst a) (fst b) && store_eqb (snd a) (snd b).
 
 Definition check (c : case) : verdict :=
-  let m := trace false init (c_ops c) in
+  let m := trace true init (c_ops c) in
   let same := list_eqb obs_eqb (c_obs c) m in
   let ok := Nat.eqb (length (c_obs c)) (length (c_ops c)) && forallb oracle_step (c_obs c) in
   judge same ok.
